@@ -101,6 +101,10 @@ pub struct World {
     /// application configuration, which then keeps its defaults
     #[serde(default)]
     pub policies_at_run_level: bool,
+    /// which sinks each run() call writes to (bit 0: `out`, bit 1: `out2`), given as that run's output
+    /// policy override; None = every run uses the configured policy
+    #[serde(default)]
+    pub per_run_sinks: Option<Vec<u8>>,
 }
 
 pub fn uuid_of(v: usize) -> String {
@@ -274,6 +278,7 @@ impl World {
             road_classes: None,
             uuid_plugin: false,
             policies_at_run_level: false,
+            per_run_sinks: None,
         }
     }
 
@@ -428,12 +433,28 @@ impl World {
     }
 
     /// the per-run configuration of the explored execution (None = no overrides)
-    pub fn run_config(&self, run_parallelism: Option<usize>) -> Option<Value> {
+    pub fn run_config(&self, run_parallelism: Option<usize>, run_index: usize) -> Option<Value> {
         let mut m = serde_json::Map::new();
         if let Some(p) = run_parallelism {
             m.insert("parallelism".into(), json!(p));
         }
-        if self.policies_at_run_level {
+        if let Some(mask) = self.per_run_sinks.as_ref().and_then(|v| v.get(run_index)).copied() {
+            // this run's own output policy: the first file, the second, or both
+            let mut me = self.clone();
+            me.policies_at_run_level = false;
+            me.per_run_sinks = None;
+            let full = me.config(false);
+            let pol = &full["response_output_policy"];
+            let chosen = match (pol["type"].as_str(), mask & 3) {
+                (Some("file"), m) if m & 1 != 0 => pol.clone(),
+                (Some("combined"), 3) => pol.clone(),
+                (Some("combined"), 1) => pol["policies"][0].clone(),
+                (Some("combined"), 2) => pol["policies"][1].clone(),
+                _ => json!({"type": "none"}),
+            };
+            m.insert("response_persistence_policy".into(), full["response_persistence_policy"].clone());
+            m.insert("response_output_policy".into(), chosen);
+        } else if self.policies_at_run_level {
             let mut me = self.clone();
             me.policies_at_run_level = false;
             let full = me.config(false);
@@ -568,7 +589,7 @@ impl World {
             (Some(o), Some(o2), false) => json!({"type": "combined", "policies": [file_policy(o, self.out_path()), file_policy(o2, self.out2_path())]}),
             _ => json!({"type": "none"}),
         };
-        let at_run = self.policies_at_run_level && !reference;
+        let at_run = (self.policies_at_run_level || self.per_run_sinks.is_some()) && !reference;
         let mut cfg = json!({
             "parallelism": if reference { 1 } else { self.parallelism },
             "search_orientation": if self.edge_oriented { "edge" } else { "vertex" },
